@@ -45,8 +45,10 @@ EXTRA = {
     "explanation": "Props/C05.lean proves, for every heap, method, `other` and result frame: finalize_result_* "
                    "(table frame iff a selected source carries info; name, destinations, units, origin, input "
                    "ancestors), combine_refuses_unit_clash, no_alias (everything reachable from the result is "
-                   "freshly allocated), mutation_independence (any sequence of facade mutations on one of two "
+                   "freshly allocated), mutation_independence (any sequence of facade mutations — including a "
+                   "consultation after columns were deleted or re-ordered in place, checkDataframe_frame — on one of two "
                    "separated infos leaves every observation of the other unchanged, separation is preserved), "
+                   "combine_refuses_unit_clash_class (InvalidTableCombineError when the sources are readable), "
                    "rewrap_independent, degrade_or_refuse. Partial in exactly: what pandas passes to __finalize__ "
                    "is observed.",
     "trusted_base": [
@@ -180,7 +182,8 @@ def state_json(info):
     st = info._last_dataframe_state
     if st is None:
         return None
-    return {"cols": [[tok(l), str(d)] for l, d in st.items()], "empty": bool(info._last_dataframe_empty)}
+    return {"cols": [[tok(l), str(d)] for l, d in st.items()], "empty": bool(info._last_dataframe_empty),
+            "strict": bool(getattr(info, "_last_strict_types", info.metadata.strict_types))}
 
 
 def reach_ids(info):
@@ -788,7 +791,7 @@ def _ops():
 
 
 MUTS = ["set_unit", "set_name", "add_dest", "add_column_new", "add_column_existing", "set_disp_unit", "set_fmt",
-        "rewrap_name", "rewrap_units", "rewrap_dests", "rewrap_none"]
+        "rewrap_name", "rewrap_units", "rewrap_dests", "rewrap_none", "del_column", "reorder"]
 SIDES = ["source", "result"]
 N_MUT = len(MUTS) * len(SIDES)
 
@@ -876,6 +879,25 @@ def apply_mutation(res, world, rng, frames, target, mut):
         Table(target)[l].unit = u
         world.push({"k": "mutate", "info": r, "mut": {"m": "set_unit", "col": tok(l), "unit": u}}, "ok")
         return True, new
+    if mut in ("del_column", "reorder"):
+        # the frame itself is changed in place (no __finalize__), then read as a table: `_update_columns`
+        # deletes / re-orders entries of the register dict in place
+        if world.consult(target):
+            return False, new
+        cols = list(target.columns)
+        if len(cols) < 2:
+            return False, new
+        with warnings.catch_warnings():
+            warnings.simplefilter("ignore")
+            if mut == "del_column":
+                del target[rng.choice(cols)]
+            else:
+                c = cols[0]
+                ser = target.pop(c)
+                target[c] = ser.to_numpy()          # first column moved to the end
+        err = world.consult(target)
+        res.counts.append("consult-after-" + mut + (":" + err if err else ":ok"))
+        return err is None, new
     if mut == "set_name":
         if world.consult(target):
             return False, new
@@ -1158,6 +1180,7 @@ def check_result(res, world, name, safe, sources, pre, R, exc, ws_outer, calls):
                 ok = False
             else:
                 want += sp["anc"]
+        res.counts.append("anc-checked" if ok else "anc-skip")
         if ok:
             exact = p["anc"] == want if safe else (not isinstance(p["anc"], dict) and set(p["anc"]) == set(want))
             if not exact:
@@ -1311,7 +1334,7 @@ def run_case(seed, stream, index, ops):
                 if not cands:
                     res.counts.append("mut-skip:no-" + side)
                     continue
-                target = cands[0]
+                target = rng.choice(cands)
                 live = [f for f in frames if has_info(f)]
                 base = {id(f): pub(world, f) for f in live}
                 if any("exc" in b for b in base.values()):
@@ -1359,7 +1382,8 @@ def run(tier, seed, model_ok, translator, search=False):
     out.rule = ("stream 'pairs': every (operation, follow-up mutation x side) pair — %d operations (the documented safe "
                 "list + a sample outside it + the six known __finalize__-bypassing operations) x %d mutations "
                 "(set unit / name / add destination / add column new+existing / display unit / format / re-wrap with "
-                "name, units, destinations; on source and on result) on a fresh random table (1-4 columns of "
+                "name, units, destinations, nothing / delete a column or re-order the columns of the frame in place and "
+                "consult; on a randomly chosen source and on the result) on a fresh random table (1-4 columns of "
                 "float/int/text/bool/datetime, 0-4 rows, random origin tree, destinations, strictness, display fields); "
                 "stream 'chains': random chains of 2-4 operations with 0-2 mutations after each. "
                 "Non-trivial: pandas called __finalize__ at least once; distinct by (plan, recorded calls).") % (
